@@ -223,7 +223,11 @@ func (p *ProofD) checkStructure(pk *gabikeys.PublicKey) bool {
 		}
 	}
 	for i, attribute := range p.ADisclosed {
-		if i < 0 || i >= len(pk.R) || attribute == nil {
+		// the secret key (index 0) is never disclosed, and no index is both disclosed and hidden
+		if i <= 0 || i >= len(pk.R) || attribute == nil {
+			return false
+		}
+		if _, hidden := p.AResponses[i]; hidden {
 			return false
 		}
 	}
